@@ -329,6 +329,21 @@ int32_t psEd25519ParsePubKeyContent(psPool_t *pool,
         return PS_PARSE_FAIL;
     }
 
+# ifdef USE_SHA1
+    /* Same as for RSA and ECDSA keys: SHA-1 hash of the value of the
+       BIT STRING subjectPublicKey [excluding the tag, length, and number
+       of unused bits]. Callers copy this to cert->sha1KeyHash. */
+    if (hash != NULL)
+    {
+        psSha1_t sha1;
+
+        psSha1PreInit(&sha1);
+        psSha1Init(&sha1);
+        psSha1Update(&sha1, key->pub, 32);
+        psSha1Final(&sha1, hash);
+    }
+# endif
+
     return PS_SUCCESS;
 }
 
